@@ -81,8 +81,9 @@ class Monitor(object):
                 if d != t:
                     self.violate("arrival_not_at_partial_sum", {"node": nd, "class": cl, "arrival_number": j, "instant": t,
                                                                 "partial_sum": d, "samples": s[:j + 1]})
-            if len(s) != len(ev) + 1 and all(valid_time(x) for x in s):
-                self.violate("inter_arrival_samples_ne_arrivals_plus_1", {"node": nd, "class": cl, "samples": len(s), "arrivals": len(ev)})
+            if len(s) < len(ev) and all(valid_time(x) for x in s):
+                # (how far ahead the stream samples is an implementation choice; fewer samples than arrivals is not)
+                self.violate("more_arrivals_than_inter_arrival_samples", {"node": nd, "class": cl, "samples": len(s), "arrivals": len(ev)})
         self.A = A
         for ind, r in self.hub.new_records():
             interrupted_visit = any(x.record_type == "interrupted service" and x.node == r.node and x.arrival_date == r.arrival_date
